@@ -6,21 +6,27 @@
 (* the proxy was quiet (then the outcome is determined).                    *)
 EXTENDS ConnTable, Json
 
-VARIABLES hist, finished
-gvars == <<vars, hist, finished>>
+VARIABLES hist, finished,
+          held      \* requests the writer of a stalled connection has held at a hand-over
+gvars == <<vars, hist, finished, held>>
+GenView == <<vars, finished, held>>
 
-GenInit == Init /\ hist = <<>> /\ finished = FALSE
+GenInit == Init /\ hist = <<>> /\ finished = FALSE /\ held = {}
 
 Log(rec) == hist' = Append(hist, rec)
 
 Finish ==
   /\ ~finished /\ next > Cardinality(Reqs) /\ Quiet
   /\ PrintT("@@BEH " \o ToJson(hist))
-  /\ finished' = TRUE /\ UNCHANGED <<vars, hist>>
+  /\ finished' = TRUE /\ UNCHANGED <<vars, hist, held>>
 
 GenNext ==
   /\ ~finished
-  /\ \/ \E r \in Reqs : Issue(r) /\ Log([a |-> "Issue", r |-> r, up |-> up, quiet |-> Quiet])
+  /\ \/ \E r \in Reqs : Issue(r) /\ Log([a |-> "Issue", r |-> r, up |-> up, quiet |-> Quiet, ask |-> asking'[r]])
+     \/ \E r \in Reqs : (WriterTake(r) \/ HandOver(r)) /\ UNCHANGED hist
+     \/ \E r \in Reqs : HandQuit(r) /\ Log([a |-> "Done", r |-> r, out |-> outcome'[r], mayErr |-> sawDown'[r]])
+     \/ \E c \in Clients : Stall(c) /\ Log([a |-> "Stall", r |-> 0])
+     \/ \E c \in Clients : Unstall(c) /\ Log([a |-> "Unstall", r |-> 0])
      \/ \E r \in Reqs : (Lookup(r) \/ DialStart(r)) /\ UNCHANGED hist
      \/ \E r \in Reqs : WaitCall(r) /\ rq'[r] # "done" /\ UNCHANGED hist
      \/ \E r \in Reqs : Dial(r) /\ (IF rq'[r] = "done"
@@ -34,7 +40,14 @@ GenNext ==
      \/ ResetSnapshot /\ UNCHANGED hist
      \/ ResetSwap /\ Log([a |-> "ResetAll", r |-> 0])
      \/ \E c \in Clients : RemoveSelf(c) /\ UNCHANGED hist
+  /\ held' = held \cup {r \in Reqs : rq'[r] = "inhand"}
   /\ UNCHANGED finished
 
 GenSpec == GenInit /\ [][GenNext \/ Finish]_gvars
+
+\* mandatory strata (exhaustive run, VIEW GenView, ACTION_CONSTRAINT StrataEmit): every way a request that the writer
+\* held at a hand-over of a stalled connection gets its reply - the path is printed when that request is done; the
+\* check takes the shortest path per (command / ASKING hand-over, how the stall ended)
+StratumHit == \E r \in Reqs : r \in held' /\ rq[r] # "done" /\ rq'[r] = "done"
+StrataEmit == StratumHit => PrintT("@@STRATUM " \o ToJson(hist'))
 =============================================================================
